@@ -280,6 +280,44 @@ func ruleWalkProgress(p *Prog, r *Report, names []string) {
 					bad = p.Pos(st.Pos())
 				}
 			}
+			// the loading may live in an unexported helper that is handed the result pointer (not the recursion itself): the call
+			// stands for the helper's stores
+			for _, ref := range *retPtr.Referrers() {
+				ci, ok := ref.(ssa.CallInstruction)
+				if !ok {
+					continue
+				}
+				h := staticCallee(ci.Common())
+				if h == nil || h == fn || !p.InModule(h) || p.Exported(h) || len(h.Blocks) == 0 {
+					continue
+				}
+				isWalkerCall := false
+				for _, vc := range calls {
+					if ssa.Instruction(vc.inner) == ssa.Instruction(ci) || ssa.Instruction(vc.site) == ssa.Instruction(ci) {
+						isWalkerCall = true
+					}
+				}
+				if isWalkerCall {
+					continue
+				}
+				stores := 0
+				for ai, a := range ci.Common().Args {
+					if a == ssa.Value(retPtr) && ai < len(h.Params) {
+						for _, r2 := range *h.Params[ai].Referrers() {
+							if st, isSt := r2.(*ssa.Store); isSt && st.Addr == ssa.Value(h.Params[ai]) {
+								stores++
+							}
+						}
+					}
+				}
+				if stores == 0 {
+					continue
+				}
+				nApp += stores
+				if !lenEqGuard(cz, keys, 0, ci.Block()) {
+					bad = p.Pos(ci.Pos())
+				}
+			}
 			if nApp == 0 {
 				r.Bad(rule, n, "values appended when the path is exhausted", p.Pos(fn.Pos()), "the walker never appends to its result")
 			} else if bad == "" {
@@ -626,6 +664,19 @@ func (p *Prog) callsCoverBody(fn *ssa.Function, calls []*ssa.Call, hdr *ssa.Basi
 			for _, a := range allowed {
 				if strings.Contains(cs, a) {
 					allowedIf = true
+				}
+			}
+			// a predicate helper whose answer depends on an allowed option variable
+			if hc, isCall := normGuard(guard{ifi.Cond, true}).Cond.(*ssa.Call); isCall && !allowedIf {
+				if h := staticCallee(&hc.Call); h != nil && p.InModule(h) && !p.Exported(h) && len(h.Blocks) > 0 {
+					rg := p.returnGlobals(h, true)
+					for _, a := range allowed {
+						if strings.HasPrefix(a, "load(") && strings.HasSuffix(a, ")") {
+							if g := p.Globals[a[5:len(a)-1]]; g != nil && rg[g] {
+								allowedIf = true
+							}
+						}
+					}
 				}
 			}
 		}
